@@ -237,6 +237,23 @@ PROPS["C20"] = {
     "explanation": "Keystore.tla models the atomic reset in factory mode (per-store durable/unsynced content, phases, buffered concurrent puts, marker flip, teardown, crash at any step) and is model-checked for reset atomicity with three negative controls; the real Keystore and ResettableKeystore (shared and factory mode) run random histories with clean restarts and crashes at chosen journal cuts, and resets whose every datastore access is interleaved with fed keys, concurrent puts, cancellation, Close and crash; TLC validates results, contents after every reopen and sizes against KeystoreTrace.tla.",
 }
 
+PROPS["C09"] = {
+    "exhaustive": [
+        {"spec": "Server.tla", "cfg": "Server_quick.cfg"},
+        {"spec": "Server.tla", "cfg": "Server_thorough.cfg", "tier": "thorough"},
+        {"spec": "Server.tla", "cfg": "Server_neg_requester.cfg", "expect": "violation"},
+        {"spec": "Server.tla", "cfg": "Server_neg_client.cfg", "expect": "violation"},
+        {"spec": "Server.tla", "cfg": "Server_neg_echo.cfg", "expect": "violation"},
+    ],
+    "drivers": [{"test": "TestServer", "trace_spec": "ServerTrace.tla", "trace_cfg": "ServerTrace.cfg", "inv_cfg": {"C09": "ServerTrace_C09.cfg"}}],
+    "assumptions": [
+        "requests arrive as framed bytes on an in-memory stream of a hand-written host; the response bytes are decoded by the harness with the repository's protobuf types",
+        "the routing table a request is judged against is the table the node reports (RoutingTable().ListPeers()) just before the request, since buckets may refuse peers",
+        "one request per stream per case plus one PING from a third peer to establish that the node still serves others",
+    ],
+    "explanation": "Server.tla states the handler as a function from (node configuration, request class) to response class and TLC enumerates the whole class space against the C09 clauses with three negative controls; the real stream handler of a real DHT is fed random well-formed, malformed, oversized, stuffed and unsupported requests of every type in server and client mode with enabled/disabled value and provider subsystems, and TLC evaluates the same clauses (ServerTrace.tla) on every recorded response, reset, stored record and stored provider.",
+}
+
 
 def overlay_file(scratch, name):
     """Writes the -overlay json for an internal-package driver (add-only mappings)."""
@@ -699,7 +716,82 @@ def mut_c20_get(run):
     return None
 
 
+def _c09_case(run):
+    for i, ev in enumerate(run):
+        if ev["e"] == "Case":
+            return i, ev
+    return -1, None
+
+
+def mut_c09_requester(run):
+    i, ev = _c09_case(run)
+    if ev is None or not ev["closer"] or ev["reqrank"] not in ev["rt"]:
+        return None
+    r = copy.deepcopy(run)
+    x = copy.deepcopy(ev["closer"][0])
+    x.update({"r": ev["reqrank"], "req": True, "target": False, "inrt": True})
+    r[i]["closer"] = sorted(r[i]["closer"] + [x], key=lambda c: c["r"])
+    return r
+
+
+def mut_c09_client_answers(run):
+    i, ev = _c09_case(run)
+    if ev is None or ev["mode"] != "client":
+        return None
+    r = copy.deepcopy(run)
+    r[i]["reset"] = False
+    r[i]["nmsgs"] = 1
+    r[i]["rtype"] = ev["typ"] if ev["typ"] != "UNKNOWN" else "PING"
+    return r
+
+
+def mut_c09_unsorted(run):
+    i, ev = _c09_case(run)
+    if ev is None or len(ev["closer"]) < 2:
+        return None
+    r = copy.deepcopy(run)
+    r[i]["closer"] = list(reversed(ev["closer"]))
+    return r
+
+
+def mut_c09_omit_nearest(run):
+    i, ev = _c09_case(run)
+    if ev is None or len(ev["closer"]) < 1 or ev["typ"] == "FIND_NODE":
+        return None
+    r = copy.deepcopy(run)
+    r[i]["closer"] = ev["closer"][1:]
+    return r
+
+
+def mut_c09_foreign_provider(run):
+    i, ev = _c09_case(run)
+    if ev is None or ev["typ"] != "ADD_PROVIDER" or ev["storedother"]:
+        return None
+    r = copy.deepcopy(run)
+    r[i]["storedother"] = True
+    return r
+
+
+def mut_c09_put_mismatch(run):
+    i, ev = _c09_case(run)
+    if ev is None or ev["typ"] != "PUT_VALUE" or ev["rec"] not in ("mismatch", "invalid") or ev["storedval"]:
+        return None
+    r = copy.deepcopy(run)
+    r[i]["storedval"] = "V1"
+    return r
+
+
+def mut_c09_dead(run):
+    i, ev = _c09_case(run)
+    if ev is None or not ev["alive"]:
+        return None
+    r = copy.deepcopy(run)
+    r[i]["alive"] = False
+    return r
+
+
 MUTATIONS = {
+    "C09": [mut_c09_requester, mut_c09_client_answers, mut_c09_unsorted, mut_c09_omit_nearest, mut_c09_foreign_provider, mut_c09_put_mismatch, mut_c09_dead],
     "C01": [mut_c01_unsorted, mut_c01_drop_nearest, mut_c01_resp_event],
     "C02": [mut_c02_unasked],
     "C03": [mut_c03_noreturn, mut_c03_late_after_cancel, mut_c03_bg],
